@@ -789,6 +789,7 @@ pub fn gen_main(args: &[String]) -> i32 {
         "fault" => crate::gen2::suite_fault(&mut out, tier, &mut rng),
         "threads" => crate::gen2::suite_threads(&mut out, tier, &mut rng),
         "decode_big" => crate::gen2::suite_decode_big(&mut out, tier, &mut rng),
+        "fault_sweep" => crate::gen2::suite_fault_sweep(&mut out, tier, &mut rng),
         "bits" => crate::gen2::suite_bits(&mut out, tier, &mut rng),
         "small_values" => crate::gen2::suite_small_values(&mut out, tier, &mut rng),
         "many_avps" => crate::gen2::suite_many_avps(&mut out, tier, &mut rng),
